@@ -59,6 +59,35 @@ def shard(args):
     cases, meta = [], {}
     cid = 0
     for i in range(s, n, nsh):
+        if i % 16 == 3:
+            # the end-of-body clause holds for every message that has a body: complete, valid content-coded bodies too (what the
+            # decoded bytes are is C07's subject; here only the marker and the length accounting are judged)
+            from . import c07
+            r = grammar.Rng(seed * 7919 + i)
+            coding = r.pick(['gzip', 'x-gzip', 'deflate-raw', 'deflate-zlib', 'lzma'])
+            side = 'req' if r.chance(0.3) else 'res'
+            if side == 'req' and coding == 'x-gzip':
+                coding = 'gzip'
+            payload = c07.gen_payload(r)[:20000] or b'x'
+            body = c07.encode(r, coding, payload)
+            fh, fbody = c07.frame(r, body, r.pick(['cl', 'chunked', 'close']) if side == 'res' else r.pick(['cl', 'chunked']))
+            hdr = ''.join(h + '\r\n' for h in fh)
+            if side == 'res':
+                msg = ('HTTP/1.1 200 OK\r\nContent-Encoding: %s\r\n%s\r\n' % (c07.HEADER_TOKEN[coding], hdr)).encode('latin-1') + fbody
+                pre, post = [(hxb.REQ, b'GET /coded HTTP/1.1\r\nHost: h\r\n\r\n')], []
+            else:
+                msg = ('POST /coded HTTP/1.1\r\nHost: h\r\nContent-Encoding: %s\r\n%s\r\n' % (c07.HEADER_TOKEN[coding], hdr)).encode('latin-1') + fbody
+                pre, post = [], [(hxb.RES, b'HTTP/1.1 200 OK\r\nContent-Length: 0\r\n\r\n')]
+            for c in range(4):
+                style = r.pick(['cuts', 'fixed', 'bytes']) if c else 'whole'
+                mops = [(hxb.REQ if side == 'req' else hxb.RES, msg)]
+                mops = mops if style == 'whole' else rechunk(r, mops, style)
+                ops = pre + mops + post + [(hxb.CLOSE, None)]
+                cfg = {'PERSONALITY': r.randrange(10), 'DUMP': hxb.DUMP_TX, 'REQ_DECOMP': 1, 'LZMA_LAYERS': 1, 'TX_HOOKS': r.randrange(2)}
+                key = (i << 5) | c
+                cases.append((key, cfg, ops))
+                meta[key] = (None, cfg, ops, style + ':coded:%s:%s' % (side, coding))
+            continue
         big = (i % 8 == 0)
         ex = grammar.gen_exchange(seed * 1000003 + i, {'res_fold': True, 'max_body': 70000 if big and i % 64 == 0 else (3000 if big else 200), 'multipart': False, 'max_n': 3})
         r = grammar.Rng(seed * 7919 + i)
@@ -85,6 +114,20 @@ def shard(args):
         ex, cfg, ops, style = meta[d['id']]
         out['n'] += 1
         out['distinct'].add(hashlib.sha1(repr(ops).encode('latin-1', 'replace')).digest()[:8])
+        if ex is None:
+            side = style.split(':')[2]
+            out['framings']['coded'] = out['framings'].get('coded', 0) + 1
+            t = (d.get('tx') or [None])[0]
+            bd = (t or {}).get('req_body' if side == 'req' else 'res_body')
+            if t is None or (t['req_progress'] if side == 'req' else t['res_progress']) != 5:
+                pass        # not completed: nothing to judge here
+            elif bd['n'] > 0 and bd['marker'] < 1:
+                k = side + '_no_end_marker_coded'
+                rp = fw.write_case_replay('C06', '%s-%d' % (k, d['id']), (d['id'], dict(cfg, DUMP=31), ops))
+                out['viol'].append((k, 'complete %s message with a content-coded body (%d decoded bytes delivered) completed without an end-of-body marker [%s]' % (side, bd['n'], style), rp))
+            for pv in d.get('viol', []):
+                out['monitor'].append((pv[0], pv[1], pv[2]))
+            continue
         for q, p in zip(ex['reqs'], ex['ress']):
             for t in (q[1], p[1]):
                 if t['framing'] != 'none':
